@@ -1,7 +1,10 @@
 #!/bin/bash
 # apply a seeded patch to /repo, run the given checks (quick), undo. usage: try_seed.sh <patch.diff> <Cxx> [Cyy ...]
-P=$1; shift
+# evidence files are saved and restored: evidence committed in /verif must come from runs on the unchanged tree
+P=$(readlink -f $1); shift
 cd /repo && git status --short | grep -v '^??' | head -1 | grep -q . && { echo "REPO DIRTY"; exit 2; }
 git -C /repo apply $P || { echo "APPLY FAILED"; exit 2; }
+B=$(mktemp -d /verif/work/evsave.XXXX); cp -a /verif/evidence/. $B/
 for c in "$@"; do (cd /verif && ./check $c quick 2>&1 | grep -v "^KNOWN-FINDING" | tail -3); done
 git -C /repo checkout -- .
+cp -a $B/. /verif/evidence/; rm -rf $B
